@@ -289,7 +289,7 @@ def structural(ctx, pool, safe, n_rdms, n_ds, length):
     os.makedirs(directory, exist_ok=True)
     jobs = [(ctx.seed * 7919 + i, length, directory, None) for i in range(n_rdms)]
     jobs += [(fl, length, directory, name) for name in P.RDMS_SCRIPTS for fl in range(4)]
-    traces, nre, nskip = [], 0, 0
+    traces, nre, nskip, nrun = [], 0, 0, 0
     for seed, res in pool.imap_unordered(_rdms_job, jobs, chunksize=2):
         if res['skipped'] and isinstance(seed, str):
             raise MachineryError(f'scripted structural history {seed} is not admissible any more: {res["skipped"]}')
@@ -298,14 +298,15 @@ def structural(ctx, pool, safe, n_rdms, n_ds, length):
             ctx.unsupported_case('c/rdms/history-not-admissible', res['skipped'])
             continue
         ctx.count(res['steps'])
+        nrun += 1
         for key, what, case in res['viol']:
             ctx.violation(f'{PID}/{key}', what, case)
         if res['trace'] and not res['viol']:
             traces.append(res['trace'])
             nre += res.get('nreload', 0)
             ctx.nontriv(('rdms-struct', seed))
-    if n_rdms and len(traces) < n_rdms // 3:
-        raise MachineryError(f'only {len(traces)} of {n_rdms} structural RDMs histories were usable')
+    if n_rdms and nrun < n_rdms // 3:
+        raise MachineryError(f'only {nrun} of {n_rdms} structural RDMs histories were admissible')
     c = C10.const(3, 4)
     rejected = ctx.validate('MC_Trace_RdmsStore',
                             C10.cfg(3, 4, 0, 2, maxobj=3, maxrows=4, maxpats=4, emit=False, spec=True),
